@@ -227,9 +227,14 @@ def _zmodel_from_cvc5(text, assertions):
             s.add(a)
         for e in eqs:
             s.add(e)
-        if s.check() == z3.sat:
+        r = s.check()
+        if r == z3.sat:
             return s.model()
-    except Exception:       # noqa
+        if os.environ.get("PYVC_DEBUG"):
+            print("cvc5 model -> z3: %s (%d constants pinned)" % (r, len(eqs)))
+    except Exception as e:       # noqa
+        if os.environ.get("PYVC_DEBUG"):
+            print("cvc5 model -> z3 failed: %r" % e)
         return None
     return None
 
